@@ -250,6 +250,46 @@ func genC05(c *ctx) {
 		b.do(sym.Op{Kind: "OVerify", S: last, K: keyRoot2, Slots: f.discharges, Tr: f.trust()})
 		b.emit(st, fmt.Sprintf("honest/%d3p-%dsteps-v%d", o.n3p, o.steps, f.ver), true, oracle)
 	}
+	// any number of attenuation steps by holders working only from the encoded token: a chain well past every internal
+	// size hint (the decoder pre-sizes for at most 64 caveats)
+	if f := longChainOracle(c.r.Fork()); f != "" {
+		b := newBuilder(c.r.Fork())
+		b.emit(st, "honest/long-chain", true, f)
+	}
+}
+
+func longChainOracle(r *rng.R) string {
+	key := macaroon.NewSigningKey()
+	m, err := macaroon.New([]byte("k"), "https://perm.test", key)
+	if err != nil {
+		return "setup: " + err.Error()
+	}
+	wire, _ := m.Encode()
+	n := 64 + 1 + r.Intn(80)
+	for i := 0; i < n; i++ {
+		dm, err := macaroon.Decode(wire)
+		if err != nil {
+			return fmt.Sprintf("honest token with %d caveats does not decode: %v", i, err)
+		}
+		if err := dm.Add(&macaroon.ValidityWindow{NotBefore: int64(i), NotAfter: 1 << 41}); err != nil {
+			return fmt.Sprintf("attenuation step %d refused: %v", i, err)
+		}
+		if wire, err = dm.Encode(); err != nil {
+			return fmt.Sprintf("token with %d caveats does not encode: %v", i+1, err)
+		}
+	}
+	fm, err := macaroon.Decode(wire)
+	if err != nil {
+		return fmt.Sprintf("honest token with %d caveats does not decode: %v", n, err)
+	}
+	set, err := fm.Verify(key, nil, nil)
+	if err != nil {
+		return fmt.Sprintf("honest token with %d caveats rejected: %v", n, err)
+	}
+	if len(set.Caveats) != n {
+		return fmt.Sprintf("verification of a token with %d caveats yields %d", n, len(set.Caveats))
+	}
+	return ""
 }
 
 // ---------------------------------------------------------------- C01: forgery attempts
@@ -456,6 +496,12 @@ func genC01(c *ctx) {
 		}
 	}
 	c.set.Notes["byte_mutations"] = map[string]any{"tried": muts, "accepted_and_equivalent": accepts, "violation": fail}
+	// "independently minted tokens never share a nonce": over every token minted in this run
+	c.set.Notes["minted_nonces"] = map[string]any{"minted": sym.Mints, "distinct": len(sym.MintNonces), "violation": sym.DupNonce}
+	if sym.DupNonce != "" {
+		b := newBuilder(c.r.Fork())
+		b.emit(st, "nonce-reuse", true, sym.DupNonce)
+	}
 	if fail != "" {
 		b := newBuilder(c.r.Fork())
 		b.emit(st, "byte-mutate", true, fail)
@@ -481,7 +527,7 @@ func genC02(c *ctx) {
 			if b.r.P(1, 5) { // near-duplicate / exact duplicate of an existing caveat
 				adds = append(adds, adds[0])
 			}
-			if b.r.P(1, 6) && len(f.tpLocs) < 2 {
+			if b.r.P(1, 3) && len(f.tpLocs) < 2 && len(b.threePIdx(parent)) < 2 {
 				adds = append(adds, sym.ACav{Is3P: true, EncKey: keyTP2, Loc: 2, TCavs: b.tcavs()})
 			}
 			b.do(sym.Op{Kind: "OAdd", S: child, Adds: adds})
@@ -501,6 +547,24 @@ func genC02(c *ctx) {
 					b.do(sym.Op{Kind: "ODischarge", Dst: d, Src: child, I: idx, K: keyTP2, Loc: 2, Proof: b.r.Bool()})
 					b.do(sym.Op{Kind: "OEncode", S: d})
 					dis = append(dis, d)
+				}
+			}
+			// an added third-party caveat demands ITS discharge: a token minted for its (public) ticket under another key
+			// does not do, also when the caveats before it are genuinely discharged
+			for _, idx := range b.threePIdx(child) {
+				c3 := b.env.Slots[child].UnsafeCaveats.Caveats[idx].(*macaroon.Caveat3P)
+				if c3.Location == sym.LocStr(2) {
+					fd := b.slot()
+					b.do(sym.Op{Kind: "OMintForTicket", Dst: fd, Src: child, J: idx, K: keyEvil, Loc: 2, Proof: b.r.Bool()})
+					b.do(sym.Op{Kind: "OEncode", S: fd})
+					of := b.do(sym.Op{Kind: "OVerify", S: child, K: keyRoot, Slots: append(append([]uint64{}, f.discharges...), fd), Tr: f.trust()})
+					if accepted(of) && oracle == "" {
+						oracle = "added third-party caveat was satisfied by a token minted for its ticket under a foreign key"
+					}
+					on := b.do(sym.Op{Kind: "OVerify", S: child, K: keyRoot, Slots: f.discharges, Tr: f.trust()})
+					if accepted(on) && oracle == "" {
+						oracle = "token verifies without the discharge of the third-party caveat that was added"
+					}
 				}
 			}
 			oc := b.do(sym.Op{Kind: "OVerify", S: child, K: keyRoot, Slots: dis, Tr: f.trust()})
@@ -531,6 +595,10 @@ func genC02(c *ctx) {
 			b.emit(st, "bundle-attenuate-3p", true, f)
 			break
 		}
+	}
+	if f := bundleAttenuateFailed(c.r.Fork()); f != "" {
+		b := newBuilder(c.r.Fork())
+		b.emit(st, "bundle-attenuate-failed-token", true, f)
 	}
 }
 
@@ -747,6 +815,54 @@ func genC06(c *ctx) {
 			oracle = "discharge bound to a token rejected with that very token"
 		}
 		b.do(sym.Op{Kind: "OVerify", S: live, K: keyRoot, Slots: []uint64{d1}})
+		// a token with TWO third-party caveats: the first one properly discharged and bound, the second one's discharge bound
+		// to an unrelated token / a sibling -- the wrong binding must not ride on the first discharge's success
+		{
+			r2, ch, sib := b.slot(), b.slot(), b.slot()
+			b.do(sym.Op{Kind: "OMint", S: r2, K: keyRoot, Kid: []byte{'t'}, Loc: 0, V: 1})
+			b.do(sym.Op{Kind: "OAdd", S: r2, Adds: []sym.ACav{{D: sym.DOf(0)}, {Is3P: true, EncKey: keyTP1, Loc: 1}}})
+			b.do(sym.Op{Kind: "OAdd", S: r2, Adds: []sym.ACav{{Is3P: true, EncKey: keyTP2, Loc: 2}}})
+			b.do(sym.Op{Kind: "OClone", Dst: ch, Src: r2})
+			b.do(sym.Op{Kind: "OAdd", S: ch, Adds: []sym.ACav{{D: sym.DOf(12)}}})
+			b.do(sym.Op{Kind: "OClone", Dst: sib, Src: r2})
+			b.do(sym.Op{Kind: "OAdd", S: sib, Adds: []sym.ACav{{D: sym.DOf(13)}}})
+			da, db := b.slot(), b.slot()
+			proof := b.r.Bool()
+			b.do(sym.Op{Kind: "ODischarge", Dst: da, Src: r2, I: 1, K: keyTP1, Loc: 1, Proof: proof})
+			b.do(sym.Op{Kind: "ODischarge", Dst: db, Src: r2, I: 2, K: keyTP2, Loc: 2, Proof: proof})
+			b.do(sym.Op{Kind: "OBind", S: da, Src: ch})
+			wrong := rng.Pick(b.r, []uint64{sib, unrelated})
+			b.do(sym.Op{Kind: "OBind", S: db, Src: wrong})
+			if b.r.Bool() {
+				b.do(sym.Op{Kind: "OBind", S: db, Src: ch}) // stacked with a correct binding: all must hold
+			}
+			b.do(sym.Op{Kind: "OEncode", S: da})
+			b.do(sym.Op{Kind: "OEncode", S: db})
+			for _, order := range [][]uint64{{da, db}, {db, da}} {
+				if ob := b.do(sym.Op{Kind: "OVerify", S: ch, K: keyRoot, Slots: order}); accepted(ob) && oracle == "" {
+					oracle = "a discharge bound to a sibling / unrelated token was accepted because an earlier third-party caveat was properly discharged"
+				}
+			}
+			b.do(sym.Op{Kind: "OVerify", S: sib, K: keyRoot, Slots: []uint64{da, db}})
+		}
+		// a proof discharge that was bound, published and read back cannot be bound again (it is final): a second Bind must
+		// fail loudly, not report success while leaving the old binding in force
+		{
+			pd, pd2 := b.slot(), b.slot()
+			na := b.r.Intn(len(nodes))
+			b.do(sym.Op{Kind: "ODischarge", Dst: pd, Src: root, I: 1, K: keyTP1, Loc: 1, Proof: true})
+			b.do(sym.Op{Kind: "OBind", S: pd, Src: nodes[na]})
+			b.do(sym.Op{Kind: "OEncode", S: pd})
+			b.do(sym.Op{Kind: "ODecodeRaw", Dst: pd2, Src: pd})
+			nb := b.r.Intn(len(nodes))
+			ob := b.do(sym.Op{Kind: "OBind", S: pd2, Src: nodes[nb]})
+			if len(ob) == 1 && ob[0] == 1 && oracle == "" {
+				oracle = "Bind reported success on a finalised proof discharge"
+			}
+			for ni := range nodes {
+				b.do(sym.Op{Kind: "OVerify", S: nodes[ni], K: keyRoot, Slots: []uint64{pd2}})
+			}
+		}
 		// a token carrying a binding presented as a permission token is rejected
 		bt := b.slot()
 		b.do(sym.Op{Kind: "OClone", Dst: bt, Src: nodes[len(nodes)-1]})
@@ -793,7 +909,7 @@ func genC07(c *ctx) {
 		class := ""
 		tok := root
 		dis := []uint64{genuine}
-		switch r.Intn(9) {
+		switch r.Intn(10) {
 		case 0: // bearer adds attestation / wrapper directly
 			t := b.slot()
 			b.do(sym.Op{Kind: "OClone", Dst: t, Src: root})
@@ -857,6 +973,22 @@ func genC07(c *ctx) {
 			tok = t
 			dis = []uint64{d}
 			class = "copied-ticket-own-verifier-key"
+		case 9: // the honest caveat (ticket T) stays; the bearer appends an own caveat RE-USING T under his own key and presents the
+			// honest discharge together with a self-minted proof for T carrying an attestation
+			t := b.slot()
+			b.do(sym.Op{Kind: "ODecodeRaw", Dst: t, Src: root})
+			ek := rng.Pick(r, []uint64{keyEvil2, sym.KeyEmpty})
+			b.do(sym.Op{Kind: "OAdd3PWithTicket", S: t, Loc: uint64(1 + r.Intn(2)), K: ek, Src: root, J: 1})
+			d := b.slot()
+			b.do(sym.Op{Kind: "OMintForTicket", Dst: d, Src: root, J: 1, K: ek, Loc: uint64(1 + r.Intn(2)), Proof: true})
+			b.do(sym.Op{Kind: "OAdd", S: d, Adds: []sym.ACav{{D: sym.DOf(4)}}})
+			b.do(sym.Op{Kind: "OEncode", S: d})
+			tok = t
+			dis = []uint64{genuine, d}
+			if r.Bool() {
+				dis = []uint64{d, genuine}
+			}
+			class = "reused-trusted-ticket"
 		case 5: // non-proof discharge extended by hand with an attestation
 			d := b.slot()
 			b.do(sym.Op{Kind: "ODischarge", Dst: d, Src: root, I: 1, K: keyTP1, Loc: 1, Proof: false})
